@@ -77,6 +77,32 @@ Theorem mono_elapsed_never_decreases : forall ops m c,
 Proof. exact m_run_elapsed_sorted. Qed.
 Print Assumptions mono_elapsed_never_decreases.
 
+(* WHOLE histories, arbitrary operations (restart / repeat included), retro = True, ANY clock
+   trace: at every call that is not a restart/repeat the elapsed time after the call is >= the
+   elapsed time before it -- i.e. a backward clock jump between ANY two operations is
+   compensated -- no call raises, and every elapsed query reports exactly max 0 (latest - start).
+   So elapsed never decreases except at an explicit restart/repeat. *)
+Theorem mono_elapsed_drops_only_at_restart : forall ops m c, m_retro m = true -> mono_run m c ops.
+Proof. exact mono_run_holds. Qed.
+Print Assumptions mono_elapsed_drops_only_at_restart.
+
+(* after ANY prefix (restarts and repeats included), every stretch without restart/repeat reports
+   non-decreasing elapsed values, none below the elapsed at the beginning of the stretch *)
+Theorem mono_elapsed_sorted_between_restarts : forall pre mid m c m1 c1,
+  m_retro m = true -> m_final m c pre = (m1, c1) -> forallb keeps_start mid = true ->
+  StronglySorted Qle (elapsed_vals mid (m_runfrom m1 c1 mid)) /\
+  Forall (fun v => qmax0 (gap m1) <= v) (elapsed_vals mid (m_runfrom m1 c1 mid)).
+Proof. exact mono_between_restarts. Qed.
+Print Assumptions mono_elapsed_sorted_between_restarts.
+
+(* restart() (no start given): the new period starts at latest = the reading, elapsed 0 *)
+Theorem mono_restart_starts_now : forall m c d m1 c1, m_update m c = (inr m1, c1) ->
+  exists m', m_step m c (Restart None d) = (OSS (m_start m') (m_stop m'), m', c1) /\
+             m_start m' = m_latest m1 /\ gap m' == 0 /\
+             m_dur m' = match d with Some y => qabs y | None => m_dur m1 end.
+Proof. exact m_restart_now_spec. Qed.
+Print Assumptions mono_restart_starts_now.
+
 (* one call, retro = True: never an error; latest - start does not decrease unless restarted *)
 Theorem mono_retro_step : forall m c o r c1, m_retro m = true -> tick c = (r, c1) ->
   exists x m', m_step m c o = (x, m', c1) /\ m_retro m' = true /\ (forall e, x <> OErr e) /\
